@@ -4,7 +4,7 @@ TRUSTED_BASE = [
     "Lean 4.33.0 kernel (theorems are re-checked by `lake build`; leanchecker in the thorough tier)",
     "axioms: propext, Classical.choice, Quot.sound only (audited with #print axioms on every property theorem); no native_decide, no bv_decide, no sorry/admit/axiom (grep on every run)",
     "Lean compiler + C toolchain + GMP for the executable judges (their definitions are the ones the theorems are about; compilation is trusted)",
-    "translate/ (the syn-based Rust -> Lean translator regenerating DecGen/Code.lean, Code2.lean on every run) and DecModel/RustPrelude.lean (machine words, casts, table access, the exact IEEE binary32/64 model): trusted as a reading of Rust semantics, and CHECKED on every run by recomputing every observation with the translated source (`corr translated-code`)",
+    "translate/ (the syn-based Rust -> Lean translator regenerating DecGen/Code.lean, Code2.lean on every run) and DecModel/RustPrelude.lean (machine words, casts, table access, the exact IEEE binary32/64 model): trusted as a reading of Rust semantics, and CHECKED on every run by recomputing every observation with the translated source (`corr translated-code`); conventions worth naming: a Rust panic (index out of range, unwrap of None, exhausted loop fuel, refused cast) is `.error`, so every `.ok` theorem proves it unreachable; wrapping +,-,*,<<,>> as the crate's profile (overflow-checks off) has them; Rust `/` is Lean's total `/` (x / 0 = 0) — the one variable division of the translated source, in bid___div_128_by_128, is covered by a specification with a non-zero divisor",
     "the Rust harness (transport and generation only; it never compares), rustc, this machine",
     "bin/check (classification against known_findings.json), bin/gen_decgen (table dump through the cfg hook; regex scrapers for the dispatch of d128.rs, the entry-point inventory and the status-word reads)",
     "DecModel/* as a reading of IEEE 754-2008 and of the property statements",
